@@ -67,6 +67,17 @@ inline void check_stack(Report & R, const covfie::field<B> & f, const LDesc * de
     constexpr size_t M = B::covariant_output_t::dimensions;
     view_t v(f);
     auto al = stack_alphabet<S>(N);
+    if constexpr (std::is_floating_point_v<S>) {
+        // the largest value below one half: c + 0.5 is not representable, so a "floor(c + 0.5)" style rounding picks the
+        // wrong lattice point. Only for stacks that round to the nearest point and have no affine map (whose products
+        // with this value would not be exact, and the interpreter is exact everywhere except interpolation)
+        bool has_nn = false, has_affine = false;
+        for (int i = 0; i < depth; ++i) {
+            has_nn = has_nn || desc[i].kind == LK_NN;
+            has_affine = has_affine || desc[i].kind == LK_AFFINE;
+        }
+        if (has_nn && !has_affine && N <= 2) al.push_back(std::nextafter(S(0.5), S(0)));
+    }
     uint64_t in_dom = 0, total = 0;
     const double u = (desc[0].in_t == ST_FLOAT || desc[0].out_t == ST_FLOAT) ? 5.9604644775390625e-08 : 1.1102230246251565e-16;
     bool anyfloat = false;
